@@ -128,7 +128,14 @@ pub fn run_scen(sc: &Scen, case: u64) -> J {
             }
             Step::SleepMs(ms) => std::thread::sleep(Duration::from_millis(*ms)),
             // how many marked processes (children of the run, not zombies) are alive at this point of the script
-            Step::CountAlive => { alive_mid = Some(survivors(&mark).len()); }
+            // (looked at again and again for up to 4 s, so that a machine under heavy load is not mistaken for a run that
+            // does not end its children: what counts is that they ARE ended, not that it takes less than 400 ms)
+            Step::CountAlive => {
+                let t1 = Instant::now();
+                let mut n = survivors(&mark).len();
+                while n > 0 && t1.elapsed() < Duration::from_secs(4) { std::thread::sleep(Duration::from_millis(50)); n = survivors(&mark).len(); }
+                alive_mid = Some(n);
+            }
             Step::SigInt => { let _ = nix::sys::signal::kill(nix::unistd::Pid::from_raw(pid), nix::sys::signal::Signal::SIGINT); }
         }
     }
@@ -373,11 +380,11 @@ pub fn gen_scen(rng: &mut Rng, _thorough: bool) -> Scen {
             // evaluation cannot complete (no EOF), so the time limit must kill the group - the leader is already gone
             for sd in 0..n { if !seeds.contains_key(&sd.to_string()) && slow < 3 && rng.chance(1, 3) { slow += 1; seeds.insert(sd.to_string(), json!({"fork": "keep", "value_of_seed": "neg"})); } }
             if slow == n { seeds.remove("0"); slow -= 1; }
-            // an evaluation that needs 1.4 s under a limit of 1.9 s finishes in time and is never killed
+            // an evaluation that needs 2.1 s under a limit of 2.9 s finishes in time and is never killed
             let medium = rng.chance(1, 3);
             if medium {
-                sc.opts = vec![s("-n"), n.to_string(), s("-k"), s("1900ms"), s("--num-concurrent"), (1 + rng.below(2)).to_string()];
-                if let Some(sd) = (0..n).find(|sd| !seeds.contains_key(&sd.to_string())) { seeds.insert(sd.to_string(), json!({"sleep_ms": 1400, "value_of_seed": "neg", "medium": true})); }
+                sc.opts = vec![s("-n"), n.to_string(), s("-k"), s("2900ms"), s("--num-concurrent"), (1 + rng.below(2)).to_string()];
+                if let Some(sd) = (0..n).find(|sd| !seeds.contains_key(&sd.to_string())) { seeds.insert(sd.to_string(), json!({"sleep_ms": 2100, "value_of_seed": "neg", "medium": true})); }
             }
             // with a target that cannot be reached (the values are -seed) nothing changes: a timed-out evaluation is
             // counted as rejected and the run goes on to its budget
